@@ -3,7 +3,7 @@
    independently of the control flow of counters.py, plus the judge used by the correspondence stream.
    The three digit loops (alphabetic / numeric / additive) are shared with the model: what they compute is
    characterised by theorems (proofs/C15_digits.v), the glue around them is what this file re-states. *)
-From Coq Require Import ZArith List String Bool Lia.
+From Coq Require Import ZArith List String Bool Lia Uint63.
 Require Import WV.model.C15Style.
 Import ListNotations.
 Open Scope Z_scope.
@@ -173,7 +173,41 @@ Definition judge_query (S : styles) (with_spec : bool) (q : query) : nat :=
    (if with_spec && (match cn with CName _ => true | _ => false end) then
       (if outcome_eqb s out then 0 else 2) else 0))%nat.
 
-(* a case: user styles (put in front of the base dictionary), spec applicable?, queries.
+(* Queries are shipped in groups: one counter name and a byte stream packed 7 bytes per primitive integer
+   (lists of primitive integers are bulk literals that Coq 8.16 reads quickly): first line the values separated by
+   spaces, then one line per outcome of the implementation, "o<text>" | "e" | "r" (UTF-8). *)
+Fixpoint bits_to_Z (n : nat) (i : Uint63.int) : Z :=
+  match n with
+  | O => 0
+  | Datatypes.S m =>
+    if Uint63.eqb i 0%uint63 then 0
+    else 2 * bits_to_Z m (Uint63.lsr i 1%uint63) + (if Uint63.eqb (Uint63.land i 1%uint63) 0%uint63 then 0 else 1)
+  end.
+Definition unpack7 (w : Uint63.int) : list Z :=
+  map (fun k => bits_to_Z 8 (Uint63.land (Uint63.lsr w k) 255%uint63))
+      [0%uint63; 8%uint63; 16%uint63; 24%uint63; 32%uint63; 40%uint63; 48%uint63].
+Definition bytes_of (a : list Uint63.int) : list Z :=
+  filter (fun b => negb (b =? 0)) (flat_map unpack7 a).
+Fixpoint split_on (sep : Z) (l : list Z) (cur : list Z) : list (list Z) :=
+  match l with
+  | [] => [rev_append cur []]
+  | b :: tl => if b =? sep then rev_append cur [] :: split_on sep tl [] else split_on sep tl (b :: cur)
+  end.
+Definition parse_nat_z (l : list Z) : Z := fold_left (fun acc d => acc * 10 + (d - 48)) l 0.
+Definition parse_int (l : list Z) : Z :=
+  match l with 45 :: tl => - parse_nat_z tl | _ => parse_nat_z l end.
+Definition parse_out (l : list Z) : outcome :=
+  match l with 111 :: t => ROk (utf8_decode t) | 101 :: _ => RExc | _ => RFuel end.
+Definition group := (bool * cname * list Uint63.int)%type.
+Definition queries_of (g : group) : list query :=
+  let '(m, cn, a) := g in
+  match split_on 10 (bytes_of a) [] with
+  | [] => []
+  | vs :: os =>
+    map (fun vo => (m, cn, parse_int (fst vo), parse_out (snd vo))) (combine (split_on 32 vs []) os)
+  end.
+
+(* a case: user styles (put in front of the base dictionary), spec applicable?, query groups.
    Result: 4 * (1-based index of the first query with a non-zero mask, 0 if none) + OR of the masks. *)
 Fixpoint judge_queries (S : styles) (with_spec : bool) (qs : list query) (i : nat) (first acc : nat) : nat :=
   match qs with
@@ -183,5 +217,9 @@ Fixpoint judge_queries (S : styles) (with_spec : bool) (qs : list query) (i : na
     judge_queries S with_spec tl (Datatypes.S i)
                   (match first, m with O, Datatypes.S _ => i | _, _ => first end) (Nat.lor acc m)
   end.
-Definition judge_case (base : styles) (c : styles * bool * list query) : nat :=
-  let '(user, with_spec, qs) := c in judge_queries (user ++ base) with_spec qs 1%nat 0%nat 0%nat.
+Definition mkcase (user : styles) (with_spec : bool) (gs : list group) : styles * bool * list group :=
+  (user, with_spec, gs).
+Definition mkgroup (m : bool) (cn : cname) (a : list Uint63.int) : group := (m, cn, a).
+Definition judge_case (base : styles) (c : styles * bool * list group) : nat :=
+  let '(user, with_spec, gs) := c in
+  judge_queries (user ++ base) with_spec (flat_map queries_of gs) 1%nat 0%nat 0%nat.
